@@ -1,12 +1,16 @@
 #!/usr/bin/env python3
-"""Run the matrix for the given properties and clear/set the "open" marks according to the outcome.
+"""Run the matrix for the given properties (in parallel) and clear/set the "open" marks according to the outcome.
 usage: openclean.py C01 C02 ...   (prints what is still open)"""
 import json, os, re, subprocess, sys
+from concurrent.futures import ThreadPoolExecutor
 HERE = os.path.dirname(os.path.dirname(os.path.abspath(__file__)))
 P = os.path.join(HERE, "checker", "mutants.json")
-for prop in sys.argv[1:]:
-    out = subprocess.run([sys.executable, os.path.join(HERE, "tools", "mutants.py"), "--prop", prop], capture_output=True, text=True).stdout
-    db = json.load(open(P))
+def run(prop):
+    return prop, subprocess.run([sys.executable, os.path.join(HERE, "tools", "mutants.py"), "--prop", prop, "--nocross"], capture_output=True, text=True).stdout
+with ThreadPoolExecutor(max_workers=7) as ex:
+    outs = list(ex.map(run, sys.argv[1:]))
+db = json.load(open(P))
+for prop, out in outs:
     st = {}
     for l in out.split("\n"):
         m = re.match(r"mutant (C\d\d)\s+(\S+)\s+(\S+)", l)
@@ -24,4 +28,4 @@ for prop in sys.argv[1:]:
                 print("open:", m["prop"], m["name"], s)
         elif s == "stale":
             print("stale:", m["prop"], m["name"])
-    json.dump(db, open(P, "w"), indent=1)
+json.dump(db, open(P, "w"), indent=1)
